@@ -54,6 +54,10 @@ type Step struct {
 	Machine string `json:"machine,omitempty"`
 	// sleep (fake ns)
 	Dur int64 `json:"dur,omitempty"`
+	// scan: a slow consumer. After PauseAfterRows rows the scanning client stops
+	// for PauseNs simulated nanoseconds with its Scanner open, then reads on.
+	PauseAfterRows int   `json:"pause_after_rows,omitempty"`
+	PauseNs        int64 `json:"pause_ns,omitempty"`
 	// par: concurrent client scripts
 	Par [][]Step `json:"par,omitempty"`
 	// CancelAfter (run): the run's context is cancelled this many simulated
@@ -81,6 +85,10 @@ type UFault struct {
 	Times int `json:"times,omitempty"`
 	// Skip: let this many matching calls pass first.
 	Skip int `json:"skip,omitempty"`
+	// Every: after Skip, fire only on every Every-th matching call (0, Every,
+	// 2*Every, ...): with a key that a task attempt meets once, a failure that
+	// comes back once per re-execution of the task and goes away on its retry.
+	Every int `json:"every,omitempty"`
 	// Where: the fault only matches calls whose stack contains this text
 	// (e.g. the combiner call site a reduce function is invoked from).
 	Where string `json:"where,omitempty"`
